@@ -43,7 +43,8 @@ type stepOut struct {
 	batches  int
 	sample   map[string]interface{}
 	fault    string
-	opDur    time.Duration // wall time of the operation itself
+	opDur    time.Duration   // wall time of the operation itself
+	rng      map[string]bool // oids of the objects of the pushed range (P2 model) and of the newly reachable commits (P1)
 }
 
 func (so *stepOut) viol(fp, msg string, detail interface{}) {
@@ -241,6 +242,48 @@ func (e *envT) oracle(w *worker, pre *wstate, o opDef, fault, where string, so *
 	if fault != "" {
 		class = "fault-" + fault
 	}
+	// faultClass: a fault restricted to one object ("<fault>@<label>") and the fault sequences are also run from worlds in
+	// which an object of the pushed range is nowhere and/or incomplete pushes are allowed.  The class of such a case names
+	// the ROLE of the faulted object in the pre-state instead of its label, and the two world dimensions:
+	//   fault-<fault>@{present-object | object-nowhere | object-outside-the-range}[+other-object-nowhere][+allowincomplete]
+	//   fault-seq-ending-in-<answer>[+object-nowhere][+allowincomplete]
+	// (the untargeted single-fault probes and the fault sequences from complete worlds keep their class unchanged)
+	faultClass := func(rng ...[]need) string {
+		base, tgt := splitFault(fault)
+		seq := strings.HasPrefix(fault, "seq-")
+		if fault == "" || (tgt == "" && !seq) {
+			return class
+		}
+		inRange, nowhereOther := false, false
+		for _, ns := range rng {
+			for _, n := range ns {
+				if n.Oid == tgt {
+					inRange = true
+				} else if strictlyAbsent(e.fileMode, pre, ri, n.Oid) {
+					nowhereOther = true
+				}
+			}
+		}
+		cl := "fault-" + base
+		switch {
+		case seq:
+		case !inRange:
+			cl += "@object-outside-the-range"
+		case strictlyAbsent(e.fileMode, pre, ri, tgt):
+			cl += "@object-nowhere"
+		default:
+			cl += "@present-object"
+		}
+		if nowhereOther && seq {
+			cl += "+object-nowhere"
+		} else if nowhereOther {
+			cl += "+other-object-nowhere"
+		}
+		if pre.AllowInc {
+			cl += "+allowincomplete"
+		}
+		return cl
+	}
 	opk := o.Kind + "-" + o.PushKind
 	so.counters["push_transitions"]++
 	if res.Code == 0 {
@@ -340,7 +383,6 @@ func (e *envT) oracle(w *worker, pre *wstate, o opDef, fault, where string, so *
 		if len(newCommits) > 0 {
 			so.counters["P1.pushes_with_new_commits_on_remote"]++
 		}
-		checkOnServer(needs, fmt.Sprintf("%d commit(s) became reachable on %s", len(newCommits), rname), func(n need) string { return staleClass(n.Oid) })
 
 		// P2: an object needed by the pushed range that is nowhere => the push fails and no ref is updated
 		var attempted []string
@@ -374,6 +416,8 @@ func (e *envT) oracle(w *worker, pre *wstate, o opDef, fault, where string, so *
 			cs := w.revList(loc, filepath.Join(bare, "objects"), attempted, vals(preRefs))
 			want = e.neededBy(w, loc, cs)
 		}
+		class = faultClass(want, needs)
+		checkOnServer(needs, fmt.Sprintf("%d commit(s) became reachable on %s", len(newCommits), rname), func(n need) string { return staleClass(n.Oid) })
 	} else {
 		// git lfs push: documented selection (git-lfs-push(1)): <ref> minus what the local clone knows the remote to have;
 		// --all: everything reachable from all local branches and tags; --object-id: the named objects.
@@ -404,6 +448,7 @@ func (e *envT) oracle(w *worker, pre *wstate, o opDef, fault, where string, so *
 		case "lfs-oid":
 			want = []need{{Oid: objOid[o.Label], Size: int64(len(objContent[o.Label])), Path: "(--object-id)", Commit: "-------"}}
 		}
+		class = faultClass(want)
 		if changed {
 			so.viol("C03:lfs-push-changed-remote-refs", fmt.Sprintf("%s: `%s` changed the refs of %s", where, o.Name, rname), detail(nil))
 		}
@@ -459,6 +504,9 @@ func (e *envT) oracle(w *worker, pre *wstate, o opDef, fault, where string, so *
 p2done:
 	if fault != "" {
 		so.counters["fault_probe."+fault]++
+		if class != "fault-"+fault {
+			so.counters["fault_class."+strings.TrimPrefix(class, "fault-")]++
+		}
 	}
 
 	ex := "0"
@@ -489,6 +537,12 @@ p2done:
 	}
 	so.outcome = fmt.Sprintf("%s exit=%s needed=%s uploaded=%s%s", opk, ex, bucket(len(needs)), bucket(so.puts), flags)
 	so.nontriv = len(needs) > 0 || len(want) > 0 || so.puts > 0
+	so.rng = map[string]bool{}
+	for _, ns := range [][]need{needs, want} {
+		for _, n := range ns {
+			so.rng[n.Oid] = true
+		}
+	}
 	so.sample = map[string]interface{}{"needed_objects": labelsOf(needs), "range_objects": labelsOf(want), "uploaded": so.puts, "batch_requests": so.batches}
 }
 
@@ -515,6 +569,9 @@ type scenario struct {
 	FaultDepth int // fault probes on faultable pushes at positions < FaultDepth
 	Faults     []string
 	Weight     int // share of the time budget (only matters when the machine is too loaded to finish)
+	// ProbeAll: the fault probes are run on every faultable push, also when the fault-free run uploaded nothing (a push
+	// that git-lfs aborts because of a missing object makes no PUT, but a fault can still change what it does)
+	ProbeAll bool
 }
 
 func (p *scenario) points(init int, path []int, fault int) []vx.Point {
@@ -682,8 +739,15 @@ func (e *envT) bfs(p *scenario, deadline time.Time) (*vx.Stats, bfsInfo) {
 						where := p.where(n.init, n.path)
 						tr := taskRes{ok: true}
 						tr.main = e.step(w, n.st, n.snap, o, "", where)
-						if tr.main.enabled && o.Faultable && depth < p.FaultDepth && tr.main.puts > 0 && tr.main.inconcl == "" {
+						if tr.main.enabled && o.Faultable && depth < p.FaultDepth && (tr.main.puts > 0 || p.ProbeAll) && tr.main.inconcl == "" {
 							for _, f := range p.Faults {
+								if _, tgt := splitFault(f); tgt != "" && !tr.main.rng[tgt] {
+									// a fault restricted to an object that is neither in the pushed range nor referenced by the
+									// commits the fault-free run made reachable: the server never answers a request about it
+									tr.main.counters["fault_probes_not_run.object_outside_the_range_of_the_push"]++
+									tr.probes = append(tr.probes, stepOut{})
+									continue
+								}
 								pr := e.step(w, n.st, n.snap, o, f, where)
 								pr.snap = nil
 								tr.probes = append(tr.probes, pr)
@@ -891,7 +955,7 @@ func newEnv(c *vx.Check) *envT {
 		panic(vx.ToolError{Msg: "VERIF_GITLFS not set (prop.json needs gitlfs)"})
 	}
 	e := &envT{scratch: filepath.Join(scratch, "c03"), thorough: c.Thorough(), blobSha: map[string]string{}, shaForm: map[string]string{},
-		initSc: map[bool]*scenario{}, initStats: map[bool]*vx.Stats{}, initSeen: map[string]bool{}}
+		initSc: map[bool]*scenario{}, initStats: map[bool]*vx.Stats{}, initSeen: map[string]bool{}, initMemo: map[string]initState{}}
 	e.binDir = filepath.Join(e.scratch, "bin")
 	for _, d := range []string{e.binDir, filepath.Join(e.scratch, "tmp"), filepath.Join(e.scratch, "tmpl")} {
 		if err := os.MkdirAll(d, 0755); err != nil {
@@ -1065,7 +1129,7 @@ func (e *envT) mkInits(p *scenario, base snap, defs [][2]string) {
 	e.fileMode = p.FileMode
 	w := <-e.pool
 	defer func() { e.pool <- w }()
-	all := append(append(localOps(true, true), remoteOps(0, true, true)...), remoteOps(1, true, true)...)
+	all := append(append(append(localOps(true, true), remoteOps(0, true, true)...), remoteOps(1, true, true)...), extraInitOps()...)
 	byName := map[string]int{}
 	for i, o := range all {
 		byName[o.Name] = i
@@ -1093,13 +1157,25 @@ func (e *envT) mkInits(p *scenario, base snap, defs [][2]string) {
 		cur, st := s0, st0
 		var path []int
 		if d[1] != "" {
+			memoKey := fmt.Sprintf("%v", p.FileMode)
 			for _, name := range strings.Split(d[1], "; ") {
 				oi, ok := byName[name]
 				if !ok {
 					panic(vx.ToolError{Msg: "mkInits: unknown operation " + name})
 				}
+				// a prefix that was already executed (and evaluated) for another initial state is not executed again: a
+				// transition is a deterministic function of (state, operation)
+				memoKey += "; " + name
+				if m, ok := e.initMemo[memoKey]; ok {
+					path = append(path, oi)
+					cur, st = m.Snap, m.St
+					continue
+				}
 				so := e.step(w, st, cur, all[oi], "", isc.where(0, path))
 				path = append(path, oi)
+				if so.enabled && so.res.OK() {
+					e.initMemo[memoKey] = initState{Snap: so.snap, St: so.post}
+				}
 				if !so.enabled || !so.res.OK() {
 					panic(vx.ToolError{Msg: fmt.Sprintf("mkInits: `%s` failed while building initial state %s: enabled=%v %s", name, d[0], so.enabled, so.res)})
 				}
@@ -1129,6 +1205,59 @@ var (
 	initTwoBranches = [2]string{"main=c0+{a.bin->A2} and f=c0+{b.bin->B1} both pushed to origin, HEAD=main",
 		"branch f; commit a.bin=A2; checkout f; commit b.bin=B1; checkout main; git push origin --all"}
 )
+
+// mkIncomplete: scenario "incomplete" = the single-fault probes crossed with the two world dimensions that decide what
+// `lfs.allowincompletepush` may excuse.  Initial worlds = {history shape} x {lfs.allowincompletepush false, true} x
+// {no object of the range missing, one of the two new objects deleted from the local store (thorough: or truncated)};
+// the two new objects A2 and B1 are absent on the server.  Depth 1: every push form of the alphabet (one ref, two refs in
+// one invocation, --all; pre-push hook and `git lfs push`) is run from every world, fault-free and under every fault of
+// the list restricted to ONE object (`<fault>@A2`, `<fault>@B1`): the fault hits the object that is nowhere, or the other,
+// present, object, or (one-ref pushes of the two-branch world) an object outside the pushed range.
+func (e *envT) mkIncomplete(base snap) *scenario {
+	bases := []string{"put-500", "batch-objerr", "verify-fail"}
+	pushes := []string{"git push origin <cur>", "git lfs push origin <cur>", "git push origin main f", "git lfs push origin main f"}
+	worlds := [][2]string{
+		{"c0 pushed; local main=c0+{a.bin->A2}+{b.bin->B1} (two commits, one ref)", "git push origin <cur>; commit a.bin=A2; commit b.bin=B1"},
+		initDiverged,
+	}
+	missing := [][2]string{{"", ""}, {"A2 deleted from the local store", "rm-object A2"}, {"B1 deleted from the local store", "rm-object B1"}}
+	if e.thorough {
+		bases = []string{"put-500", "put-500-once", "put-422", "batch-objerr", "verify-fail"}
+		pushes = append(pushes, "git push origin --all", "git lfs push origin f main", "git lfs push origin --all", "git -c lfs.transfer.batchsize=1 push origin --all", "git push -f origin <cur>")
+		worlds = append(worlds, [2]string{"nothing pushed; local main=c0+{a.bin->A2}+{b.bin->B1} (new branch, four new objects)", "commit a.bin=A2; commit b.bin=B1"})
+		missing = append(missing, [2]string{"A2 truncated in the local store", "truncate-object A2"}, [2]string{"B1 truncated in the local store", "truncate-object B1"})
+	}
+	sc := &scenario{Name: "incomplete", Depth: 1, FaultDepth: 1, ProbeAll: true, Faults: targetedFaults(bases, []string{"A2", "B1"}), Weight: 1}
+	sc.Ops = pick(append(localOps(true, true), remoteOps(0, true, true)...), pushes...)
+	for i := range sc.Ops {
+		sc.Ops[i].Faultable = true
+	}
+	var defs [][2]string
+	for _, w := range worlds {
+		for _, allow := range []bool{false, true} {
+			for _, m := range missing {
+				desc, seq := w[0], w[1]
+				if m[1] != "" {
+					desc, seq = desc+"; "+m[0], seq+"; "+m[1]
+				}
+				if allow {
+					desc, seq = desc+"; lfs.allowincompletepush=true", seq+"; toggle lfs.allowincompletepush"
+				}
+				defs = append(defs, [2]string{desc, seq})
+			}
+		}
+	}
+	e.mkInits(sc, base, defs)
+	return sc
+}
+
+// extraInitOps: operations that only build initial states (not part of any explored alphabet).
+func extraInitOps() []opDef {
+	return []opDef{
+		{Name: "truncate-object A2", Kind: "truncobj", Label: "A2"},
+		{Name: "truncate-object B1", Kind: "truncobj", Label: "B1"},
+	}
+}
 
 func (e *envT) scenarios() []*scenario {
 	var ps []*scenario
@@ -1173,6 +1302,8 @@ func (e *envT) scenarios() []*scenario {
 		e.mkInits(wide, baseHTTP, [][2]string{initSynced, initUnpushed})
 		ps = append(ps, wide)
 	}
+
+	ps = append(ps, e.mkIncomplete(baseHTTP))
 
 	two := &scenario{Name: "tworemotes", Depth: 3, FaultDepth: 0, Faults: faults}
 	two.Ops = append(append(localOps(false, false), remoteOps(0, false, false)...), remoteOps(1, false, false)...)
@@ -1232,14 +1363,19 @@ func TestVerifC03(t *testing.T) {
 		"States are deduplicated by a canonical key: HEAD + every ref of the local repository (incl. remote-tracking) and of each bare remote with its object id " +
 		"(commit ids are content signatures here: fixed identities/dates/messages make them a function of graph shape and blob contents) + local LFS store + server object sets + work-tree files + lfs.allowincompletepush. " +
 		"On designated pushes that upload something, the same transition is re-run under each scripted server fault (deviation bound 1: one faulty push, terminal). " +
+		"Scenario incomplete (depth 1) crosses the single-fault probes with the world dimensions that decide what lfs.allowincompletepush may excuse: initial worlds = {two new objects A2, B1 in two commits of one ref; on two diverged branches; thorough: on a branch the remote does not have} x " +
+		"{lfs.allowincompletepush false, true} x {nothing missing, A2 / B1 deleted from the local store (thorough: or truncated)}; every push form (pre-push hook and `git lfs push`; the current branch, two refs in one invocation, thorough: --all, -f, batchsize 1) is run from every world fault-free and under every fault " +
+		"restricted to ONE object (`<fault>@A2`, `<fault>@B1`: only the storage PUT / verify callback / batch-response entry of that object is faulty), so that the fault hits the object that is nowhere or the other, present, object; " +
+		"a fault restricted to an object outside the range of the push is not run (the server never answers a request about it). " +
 		"A case = (state, push operation, fault); it is non-trivial when the pushed range references at least one LFS object or something was uploaded; distinct = distinct (canonical state key, operation, fault). " +
 		"Scenario faultseq (not BFS): on a few designated pushes (one new object / two new objects, pre-push hook and `git lfs push`, with and without a verify callback, lfs.transfer.maxretries 1 or 2) every answer of the LFS server " +
 		"to a batch request, a storage PUT or a verify callback is a choice point (nominal answer, or one of: batch 429 with Retry-After 1 / 429 / 500 / 503 / connection reset; PUT 500 / 503 / 429 / 429 with Retry-After 1 / connection cut after the body; " +
 		"verify 500 with the upload kept / discarded); stateless DFS enumerates every answer script with at most F faulty answers placed among the first K requests of the push (the stream depends on the earlier answers: children are derived from the stream an execution produced); " +
-		"a case there = (designated push, answer script), every one distinct and non-trivial; same oracle."
+		"a case there = (designated push, answer script), every one distinct and non-trivial; same oracle. " +
+		"The designated pushes include pushes from worlds in which lfs.allowincompletepush=true and one object of the pushed range is nowhere while another one is present and new (one ref; thorough: also two refs in one invocation)."
 	c.Assumptions = []string{
 		"P1 (git push): for every commit in `rev-list <remote refs after> --not <remote refs before>` (computed in the bare remote), every blob that is a spec pointer (strict decoder written from docs/spec.md, incl. extension lines; read with ls-tree/cat-file) names an object stored on that remote's LFS server whose bytes hash to the oid. Demanded whenever refs of the remote changed (a ref that was updated is a push that succeeded for that ref), whatever the exit code of git.",
-		"P1 exemption: with lfs.allowincompletepush=true, an object that before the push was neither validly in the local store nor on the server is not demanded.",
+		"P1 exemption: with lfs.allowincompletepush=true, an object that before the push was neither validly in the local store nor on the server is not demanded. The exemption is per object: every other object of the newly reachable commits is demanded, whatever else went wrong in the same push (scenario incomplete and the fault sequences cross a server fault on a present object with another object being nowhere).",
 		"P2 (git push): model of what git hands to the hook = selected local refs that are not up to date, not a tag that exists remotely with another value and (unless -f) fast-forward. If an object referenced by `rev-list <those> --not <remote refs before>` is not validly in .git/lfs/objects, no top-level work-tree file has its bytes (git-lfs re-cleans the work-tree file: that counts as locally present) and the server lacks it, and lfs.allowincompletepush is not true, then git must exit non-zero and no ref of the remote may change.",
 		"git lfs push does not move refs, so 'commits that became reachable through that push' is read through its documented selection (git-lfs-push(1)): `<remote> <ref>...`: objects of commits reachable from the named ref(s) and not from the local clone's remote-tracking refs of that remote; `--all`: objects of every commit reachable from any local branch or tag; `--object-id`: the named objects. Exit 0 => all of them on the server with the right bytes (same exemption); one of them nowhere => exit != 0.",
 		"The fake LFS servers never delete objects on their own (scenario 'servergc' adds an explicit garbage-collection operation that removes objects no ref of the remote refers to) and store PUT bodies without hashing them, so 'the right bytes' is checked by the oracle, not enforced by the server. A truncated (wrong-size) local object counts as absent locally.",
